@@ -45,6 +45,24 @@ class FaultSchedule(object):
     def on_recv(self, sock, n):
         self.nrecv += 1
         self.order.append("r")
+        conn = getattr(self, "conn", None)
+        if conn is not None and self.op is None:
+            # reference run: may an unprotected alert be read at this call?  (no read protection yet, or the first
+            # record of the TLS 1.3 handshake epoch)
+            rl = conn._recordLayer
+            rs = rl._readState
+            prot = bool(rs.encContext or rs.macContext)
+            self.plain_ok = getattr(self, "plain_ok", [])
+            self.plain_ok.append(bool(not prot or (rl._is_tls13_plus() and rs.seqnum == 0)))
+        if self.op == "recv" and self.kind == "alert" and self.nrecv == self.at and not self.failed:
+            # the peer aborts with a fatal alert (handshake_failure) and closes
+            self.failed = True
+            del sock.rx.buf[:]
+            sock.rx.buf += bytes([21, 3, 3, 0, 2, 2, 40])
+            sock.rx.eof = True
+            return None
+        if self.failed and self.kind == "alert":
+            return None
         if self.failed and self.kind == "alert-epipe":
             return None            # what is buffered is delivered, then EOF
         if self.failed:
@@ -118,6 +136,7 @@ def hs_reference(job):
             return i, role, None
         vs = sc.pair.csock if role == "c" else sc.pair.ssock
         sch = FaultSchedule()
+        sch.conn = sc.pair.c if role == "c" else sc.pair.s
         vs.schedule = sch
         cgen, sgen = sc.gens()
         st, co, so = sc.pair.run(cgen, sgen, max_steps=50000)
@@ -132,7 +151,7 @@ def hs_reference(job):
                 first += 1
             elif seen_s:
                 break
-        return i, role, (sch.nrecv, sch.nsend, first)
+        return i, role, (sch.nrecv, sch.nsend, first, list(getattr(sch, "plain_ok", [])))
     except BaseException:
         import traceback
         return i, role, {"crash": traceback.format_exc()}
@@ -153,9 +172,9 @@ def hs_fault(job):
         cgen, sgen = sc.gens()
         st, co, so = p.run(cgen, sgen, max_steps=50000)
         out = co if role == "c" else so
-        envname = {"eof": "eof", "reset": "reset", "epipe": "epipe", "alert-epipe": "fatalsend"}[kind]
+        envname = {"eof": "eof", "reset": "reset", "epipe": "epipe", "alert-epipe": "fatalsend", "alert": "fatal"}[kind]
         ev = [{"ev": "CFG", "closeSocket": bool(opts[0]), "ignoreAbrupt": bool(opts[1])}]
-        ev.append(call_event("handshake", envname, out, victim, wantdesc=40 if kind == "alert-epipe" else 0))
+        ev.append(call_event("handshake", envname, out, victim, wantdesc=40 if kind in ("alert-epipe", "alert") else 0))
         ev[-1]["buffered"] = bool(getattr(vs.schedule, "was_buffered", False))
         # afterwards: reads return empty, writes raise the closed-connection error
         o = p.op(role, _read_gen(victim, None, 1), max_steps=2000)
@@ -376,7 +395,7 @@ def run(tier):
         if isinstance(cnt, dict):
             rep.machinery_errors.append("reference crashed: " + cnt["crash"][-400:])
             continue
-        nrecv, nsend, nfirst = cnt
+        nrecv, nsend, nfirst, plain_ok = cnt
         f = flavs[i]
         k = 0
         for at in range(1, nrecv + 1):
@@ -388,6 +407,10 @@ def run(tier):
             opts = [(True, False), (False, True)][k % 2]
             k += 1
             jobs.append((i, f, role, "send", at, "epipe", opts))
+        # the peer aborts with an unprotected fatal alert wherever the victim can still read one
+        for at in range(1, nrecv + 1):
+            if at <= len(plain_ok) and plain_ok[at - 1]:
+                jobs.append((i, f, role, "recv", at, "alert", (True, False)))
         if role == "s":
             # the client has answered the ServerHello flight with a fatal alert and is gone: the failing write of the
             # server must surface that alert, not a bare socket error
